@@ -2,12 +2,12 @@
 import itertools, random
 from .common import Scenario, MAX
 
-ALL_SHAPES = ["One", "Two", "Flat4", "Heap", "DrH", "DrN", "DrP", "PlC", "NFirst", "NFirstF", "N2", "ZZ", "NMid", "NMidF",
+ALL_SHAPES = ["One", "Two", "Flat4", "Heap", "DrH", "DrN", "DrP", "PlC", "NFirst", "NFirstF", "Hyg", "N2", "ZZ", "NMid", "NMidF",
               "NLast", "NLastF", "Deep", "DeepF"]
 NOCLONE = set()   # (the Drop shapes had no Clone API before /repo 72750cf)
 DROP_SHAPES = ["DrH", "DrN", "DrNN", "DrP"]
 TWINS = [("NFirst", "NFirstF"), ("NMid", "NMidF"), ("NLast", "NLastF"), ("Deep", "DeepF")]
-NLEAVES = {"DrP": 2, "PlC": 2, "One": 1, "Two": 2, "Flat4": 4, "Heap": 2, "DrH": 2, "DrN": 3, "DrNN": 3, "NFirst": 3, "NFirstF": 3, "N2": 4, "ZZ": 2,
+NLEAVES = {"DrP": 2, "PlC": 2, "One": 1, "Two": 2, "Flat4": 4, "Heap": 2, "DrH": 2, "DrN": 3, "DrNN": 3, "NFirst": 3, "NFirstF": 3, "Hyg": 5, "N2": 4, "ZZ": 2,
            "NMid": 4, "NMidF": 4, "NLast": 3, "NLastF": 3, "Deep": 5, "DeepF": 5}
 
 
